@@ -214,8 +214,9 @@ impl RoutePattern {
                         if collected.is_empty() {
                             return None;
                         } else {
+                            //Parameters are keyed by their name as it appears in the pattern (as for `apply`).
                             param_map
-                                .insert(segment_decoded.decode_utf8_lossy().to_string(), collected);
+                                .insert(segment.segment_str(pattern.as_str()).to_string(), collected);
                         }
                     } else if !part_decoded.eq(segment_decoded) {
                         return None;
